@@ -13,6 +13,17 @@ EIG_NOTE = ('the contracts of scipy eigsh/eigs/eigh/eig and of sparse.remove_nul
             'ordering, positivity/ascending order of computed values and sparse/dense agreement are not decidable by contracts and are not claimed')
 
 CHECKS = {
+ 'C07': dict(
+    category='proof',
+    text=('Panel.add_force/calc_fext and PanelAssembly.calc_fext are executed symbolically (real constructors, symbolic positions/components/load factor): every force '
+          'contributes [fx,fy,fz].g(x_f,y_f) of its own panel at that panel\'s range, incrementable forces exactly once times the load factor; the fg/cfg kernel is '
+          'proved to write g[d,3(jm+i)+d] = f_i g_j, which with the C11 series contract makes f.c the virtual work; sparse.solve and analysis.static are executed over '
+          'abstract arrays for all sizes (K restricted to its non-null columns, f restricted likewise, solution scattered into zeros); StiffPanelBay.calc_fext is '
+          'executed symbolically (known finding).'),
+    design_ref='DESIGN.md section 4 (C07)',
+    note=('spsolve and remove_null_cols through assumed contracts (the real remove_null_cols/solve additionally by the bounded run-time stand-in); numbers of panels and '
+          'forces bounded (1..2 panels, 0..2 forces of each kind); linearity follows from the structure of the result, not separately proved; 2 known findings'),
+    technique='contracts + symbolic execution (object arrays, abstract arrays); exact normal form; bounded stand-in for sparse.py'),
  'C11': dict(
     category='proof',
     text=('cfuvw, cfwx, cfwy and cfstrain are extracted from clt_bardell_field.pyx and executed symbolically for a generic evaluation point and symbolic '
